@@ -607,6 +607,9 @@ func runMulti(prop string, seed uint64, tier string, replay *core.Schedule) (*co
 	switch prop {
 	case "C04", "C06":
 		s.nodes = append(s.nodes, &msNode{name: "twin", db: simdb.New(), iavlCache: cfg.TwinCache})
+	case "C09":
+		// historical reads with and without the height cache in front of the trees
+		s.nodes[0].cacheOn = seed%2 == 1
 	case "C10":
 		s.nodes[0].cacheOn = true
 		s.nodes[0].name = "cache-on"
